@@ -223,6 +223,9 @@ def glob_cases(rng, quick):
     cases = []
     for p in pats:
         strs = {p, glob_resolve(p, ""), glob_resolve(p, "a"), glob_resolve(p, "b*"), glob_resolve(p, "\\")}
+        # what a star has to cover is any characters at all: line ends, tabs, NUL, non-BMP
+        strs |= {glob_resolve(p, "x\ny"), glob_resolve(p, "\r\n"), glob_resolve(p, "\n"), glob_resolve(p, "\t\x00\U0001f600"),
+                 "\n" + p, p + "\n"}
         strs.add(glob_resolve(p, "ab")[:-1])
         for _ in range(2 if quick else 12):
             strs.add("".join(rng.choice(GLOB_ALPHA) for _ in range(rng.randint(0, 4))))
